@@ -255,7 +255,10 @@ CTV(e) ==
     [] e.t = "paren" -> CTV(e.x)
     [] e.t = "neg" -> LET x == CTV(e.x) IN IF IsU(x) \/ x.ty # "i" THEN U ELSE I(0 - x.v)
     [] e.t = "bnot" -> LET x == CTV(e.x) IN IF IsU(x) \/ x.ty # "i" THEN U ELSE I(BNot(x.v))
-    [] e.t = "bin" -> LET l == CTV(e.l) r == CTV(e.r) IN IF IsU(l) \/ IsU(r) \/ l.ty # "i" \/ r.ty # "i" THEN U ELSE Arith(e.op, l, r)
+    [] e.t = "bin" -> LET l == CTV(e.l) r == CTV(e.r) IN
+                      \* grammar.y: a shift by a CONSTANT count of 64 or more is the constant 0 whatever its left operand is
+                      IF e.op \in {"<<", ">>"} /\ ~IsU(r) /\ r.ty = "i" /\ r.v >= 64 THEN I(0)
+                      ELSE IF IsU(l) \/ IsU(r) \/ l.ty # "i" \/ r.ty # "i" THEN U ELSE Arith(e.op, l, r)
     [] OTHER -> U
 \* a range (lo..hi) is rejected at compile time exactly when both bounds are constants and lo > hi or lo < 0;
 \* (n..n) is a valid range: ranges are inclusive
